@@ -789,9 +789,9 @@ Definition hf_step (z hfrev : Z) (s : slot) : slot :=
   | None => s
   end.
 Definition micro_step (z : Z) : slot -> slot :=
-  upd_dev (fun a => mkDA (Z.max z (da_micro a)) (da_latest_minor a) (da_has_stab a)).
+  upd_dev (fun a => mkDA (Z.max z (da_micro a)) (da_latest_minor a) (da_has_stab a) (da_stab_micro a)).
 Definition lminor_step (y : Z) : slot -> slot :=
-  upd_dev (fun a => mkDA (da_micro a) (Z.max y (da_latest_minor a)) (da_has_stab a)).
+  upd_dev (fun a => mkDA (da_micro a) (Z.max y (da_latest_minor a)) (da_has_stab a) (da_stab_micro a)).
 Definition tag_slot (t : ptag) (k : key) (s : slot) : slot :=
   let '(x, y, z, h) := t in
   let hfrev := match h with Some n => n | None => tag_default_hfrev end in
@@ -985,7 +985,7 @@ Definition major_slot (ks : list key) (k : key) (s : slot) : slot :=
       match s_dev s with
       | Some (db, a) =>
           mkSlot (Some (db, mkDA (da_micro a) (max_list (da_latest_minor a) (minors_of ks (major_of db)))
-                                 (da_has_stab a))) (s_stab s) (s_hf s)
+                                 (da_has_stab a) (da_stab_micro a))) (s_stab s) (s_hf s)
       | None => s
       end
   end.
@@ -1002,7 +1002,7 @@ Definition major_step (ks : list key) (e : key * slot) : result (key * slot) :=
                                             then match snd k' with Some m => [m] | None => [] end
                                             else []) ks in
           Ok (k, mkSlot (Some (db, mkDA (da_micro a) (max_list (da_latest_minor a) minors)
-                                        (da_has_stab a))) (s_stab s) (s_hf s))
+                                        (da_has_stab a) (da_stab_micro a))) (s_stab s) (s_hf s))
       end
   end.
 
@@ -1078,7 +1078,7 @@ Lemma c09_tags_slot_dev ts k : forall s db a,
   s_dev s = Some (db, a) ->
   s_dev (tags_slot ts k s) =
   Some (db, mkDA (max_list (da_micro a) (rel_patches ts k)) (max_list (da_latest_minor a) (rel_minors ts k))
-                 (da_has_stab a)).
+                 (da_has_stab a) (da_stab_micro a)).
 Proof.
   unfold tags_slot. induction ts as [|t r IH]; intros s db a F; cbn [fold_left].
   - unfold rel_patches, rel_minors. destruct (snd k); cbn; rewrite F; destruct a; reflexivity.
@@ -1086,19 +1086,19 @@ Proof.
     destruct (key_eqb (x, Some y) k) eqn:E1.
     + apply c09_key_eqb_eq in E1. subst k.
       assert (F1 : s_dev (micro_step z (hf_step z match h with Some n => n | None => tag_default_hfrev end s)) =
-                   Some (db, mkDA (Z.max z (da_micro a)) (da_latest_minor a) (da_has_stab a))).
+                   Some (db, mkDA (Z.max z (da_micro a)) (da_latest_minor a) (da_has_stab a) (da_stab_micro a))).
       { unfold micro_step, upd_dev. destruct (c09_hf_step_desc z match h with Some n => n | None => tag_default_hfrev end s) as (_ & _ & D).
         rewrite F in D. cbn in D.
         destruct (s_dev (hf_step z match h with Some n => n | None => tag_default_hfrev end s)) as [[db' a']|] eqn:F'; [|discriminate D].
         unfold hf_step, set_hfrev in F'. destruct (s_hf s) as [[hb rev]|]; [destruct (micro_of hb =? z)|]; cbn in F';
         rewrite F in F'; injection F' as <- <-; reflexivity. }
-      rewrite (IH _ _ _ F1). unfold rel_patches, rel_minors, released_patches. cbn [snd fst flat_map da_micro da_latest_minor da_has_stab].
+      rewrite (IH _ _ _ F1). unfold rel_patches, rel_minors, released_patches. cbn [snd fst flat_map da_micro da_latest_minor da_has_stab da_stab_micro].
       rewrite !Z.eqb_refl. cbn [andb app]. rewrite c09_max_list_acc. reflexivity.
     + destruct (key_eqb (x, None) k) eqn:E2.
       * apply c09_key_eqb_eq in E2. subst k.
-        assert (F1 : s_dev (lminor_step y s) = Some (db, mkDA (da_micro a) (Z.max y (da_latest_minor a)) (da_has_stab a)))
+        assert (F1 : s_dev (lminor_step y s) = Some (db, mkDA (da_micro a) (Z.max y (da_latest_minor a)) (da_has_stab a) (da_stab_micro a)))
           by (unfold lminor_step, upd_dev; rewrite F; reflexivity).
-        rewrite (IH _ _ _ F1). unfold rel_patches, rel_minors, released_minors. cbn [snd fst flat_map da_micro da_latest_minor da_has_stab].
+        rewrite (IH _ _ _ F1). unfold rel_patches, rel_minors, released_minors. cbn [snd fst flat_map da_micro da_latest_minor da_has_stab da_stab_micro].
         rewrite !Z.eqb_refl. cbn [app]. rewrite c09_max_list_acc. reflexivity.
       * rewrite (IH _ _ _ F). unfold rel_patches, rel_minors, released_patches, released_minors.
         destruct k as [kx [ky|]]; cbn [snd fst flat_map].
@@ -1118,7 +1118,7 @@ Proof.
     + apply c09_key_eqb_eq in E1. subst k.
       assert (F1 : s_hf (micro_step z (hf_step z hfrev s)) =
                    Some (hb, if micro_of hb =? z then Z.max (hfrev + 1) r else r)).
-      { destruct (c09_upd_dev_desc (fun a => mkDA (Z.max z (da_micro a)) (da_latest_minor a) (da_has_stab a))
+      { destruct (c09_upd_dev_desc (fun a => mkDA (Z.max z (da_micro a)) (da_latest_minor a) (da_has_stab a) (da_stab_micro a))
                                    (hf_step z hfrev s)) as (_ & _ & _).
         assert (G : s_hf (micro_step z (hf_step z hfrev s)) = s_hf (hf_step z hfrev s)).
         { unfold micro_step, upd_dev. destruct (s_dev (hf_step z hfrev s)) as [[? ?]|]; reflexivity. }
@@ -1148,10 +1148,10 @@ Definition lminor_final (ts : list ptag) (ks : list key) (k : key) (db : branch)
 Lemma c09_final_slot_dev ts ks k s db :
   s_dev s = Some (db, dev_default) ->
   s_dev (final_slot ts ks k s) =
-  Some (db, mkDA (micro_final ts k) (lminor_final ts ks k db) default_has_stabilization).
+  Some (db, mkDA (micro_final ts k) (lminor_final ts ks k db) default_has_stabilization default_stabilization_micro).
 Proof.
   intro F. unfold final_slot, major_slot. pose proof (c09_tags_slot_dev ts k _ _ _ F) as G.
-  unfold micro_final, lminor_final, dev_default in *. cbn [da_micro da_latest_minor da_has_stab] in G.
+  unfold micro_final, lminor_final, dev_default in *. cbn [da_micro da_latest_minor da_has_stab da_stab_micro] in G.
   unfold rel_minors in *. destruct (snd k) eqn:Ek; rewrite G; reflexivity.
 Qed.
 
@@ -1175,7 +1175,7 @@ Definition hf_b (s : slot) : list branch := match s_hf s with Some (hb, _) => [h
 Definition mark_dev (s : slot) : option (branch * devattrs) :=
   match s_dev s with
   | Some (db, a) => Some (db, match s_stab s with
-                              | Some _ => mkDA (da_micro a) (da_latest_minor a) true
+                              | Some sb => mkDA (da_micro a) (da_latest_minor a) true (Some (micro_of sb))
                               | None => a
                               end)
   | None => None
@@ -1306,31 +1306,32 @@ Proof.
   rewrite !map_app. reflexivity.
 Qed.
 
-(* a slot that holds neither a development nor a hotfix branch makes finalize raise
-   DevBranchDoesNotExist, provided no earlier slot runs into None.has_stabilization *)
+(* a stabilization branch without its development branch makes finalize raise DevBranchDoesNotExist,
+   whatever else sits in the slot (since f5b7e55 also next to a hotfix destination) *)
 Lemma c09_loop_err dst dst_hf : forall l ign inc last,
-  (exists k s, In (k, s) l /\ s_dev s = None /\ s_hf s = None) ->
-  (forall k s, In (k, s) l -> s_dev s = None -> s_stab s <> None -> s_hf s = None) ->
-  (forall k s, In (k, s) l -> s_dev s = None -> s_hf s = None -> snd k <> None) ->
+  (exists k s, In (k, s) l /\ s_dev s = None /\ s_stab s <> None) ->
+  (forall k s, In (k, s) l -> s_dev s = None -> snd k <> None) ->
   fin_loop dst dst_hf ign inc last l = Err DevBranchDoesNotExist.
 Proof.
-  induction l as [|[k s] t IH]; intros ign inc last (k0 & s0 & Hin & B) NA NK; [destruct Hin|].
+  induction l as [|[k s] t IH]; intros ign inc last (k0 & s0 & Hin & B) NK; [destruct Hin|].
   cbn [fin_loop].
   destruct (fin_step dst dst_hf ign inc k s) as [o|e] eqn:St.
-  - rewrite IH; [reflexivity| |intros; eapply NA; [right|..]; eassumption|intros; eapply NK; [right|..]; eassumption].
+  - rewrite IH; [reflexivity| |intros; eapply NK; [right|..]; eassumption].
     destruct Hin as [Hin|Hin]; [|exists k0, s0; auto].
-    injection Hin as -> ->. destruct B as [B1 B2]. unfold fin_step in St. rewrite B1, B2 in St. discriminate St.
-  - unfold fin_step in St.
+    injection Hin as <- <-. destruct B as [B1 B2]. unfold fin_step in St. rewrite B1 in St.
+    destruct (s_stab s) as [sb|]; [|contradiction]. destruct (s_hf s) as [[hb r]|]; discriminate St.
+  - assert (Em : missing_dev_error k = DevBranchDoesNotExist -> e = missing_dev_error k -> e = DevBranchDoesNotExist)
+      by congruence.
+    unfold fin_step in St.
     destruct (s_dev s) as [[db a]|] eqn:Fd.
     + destruct (s_hf s) as [[hb r]|], (s_stab s) as [sb|]; cbn in St;
       repeat match type of St with context [if ?c then _ else _] => destruct c end; discriminate St.
-    + destruct (s_hf s) as [[hb r]|] eqn:Fh.
-      * destruct (s_stab s) as [sb|] eqn:Fs.
-        -- assert (C : s_hf s = None) by (apply (NA k s); [left; reflexivity | exact Fd | rewrite Fs; discriminate]).
-           congruence.
-        -- cbn in St. repeat match type of St with context [if ?c then _ else _] => destruct c end; discriminate St.
-      * injection St as <-. unfold missing_dev_error.
-        destruct (snd k) eqn:Ek; [reflexivity|]. exfalso. apply (NK k s); auto. left; reflexivity.
+    + assert (Ek : missing_dev_error k = DevBranchDoesNotExist).
+      { unfold missing_dev_error. destruct (snd k) eqn:Ek; [reflexivity|]. exfalso.
+        apply (NK k s); auto. left; reflexivity. }
+      destruct (s_hf s) as [[hb r]|] eqn:Fh; destruct (s_stab s) as [sb|] eqn:Fs; cbn in St;
+      repeat match type of St with context [if ?c then _ else _] => destruct c end;
+      try discriminate St; injection St as <-; rewrite Ek; reflexivity.
 Qed.
 
 (* ======================================================================================== *)
@@ -1723,7 +1724,7 @@ Qed.
 Definition Attrs (ts : list ptag) (ks : list key) (c : cascade) : Prop :=
   forall k s, In (k, s) c ->
     (forall db a, s_dev s = Some (db, a) ->
-        a = mkDA (micro_final ts k) (lminor_final ts ks k db) default_has_stabilization) /\
+        a = mkDA (micro_final ts k) (lminor_final ts ks k db) default_has_stabilization default_stabilization_micro) /\
     (forall hb r, s_hf s = Some (hb, r) -> r = next_after default_hfrev (rel_hf ts k hb)).
 
 Lemma c09_attrs_final ts ks c0 : Fresh c0 -> Attrs ts ks (map_slots (final_slot ts ks) c0).
@@ -1830,19 +1831,6 @@ Qed.
 (* 7. finalize against the specification                                                      *)
 (* ======================================================================================== *)
 
-(* The two places where the code leaves the statement (both are witnesses of C09_refuted):
-   W1  the destination is hotfix/x.y.z and a stabilization/x.y.w exists without development/x.y: finalize
-       dies on None.has_stabilization (AttributeError) instead of rejecting with DevBranchDoesNotExist;
-   W2  development/x.y is a target, its stabilization/x.y.z is not, and z is not the next unreleased patch:
-       the code answers "last release + 2" whatever z is. *)
-Definition w1_corner (bs : list branch) (dst : branch) : Prop :=
-  exists x y z w, dst = Hotfix x y z /\ In (Stab x y w) bs /\ ~ In (Dev x (Some y)) bs.
-
-Definition gap_free (bs : list branch) (ts : list ptag) (dst : branch) : Prop :=
-  forall x y z, In (Stab x y z) bs -> Stab x y z <> dst -> is_hotfix dst = false ->
-                line_le (key_of dst) (x, Some y) = true ->
-                0 <= z <= next_after 0 (released_patches ts x y).
-
 Lemma c09_orphan_slot bs dst c :
   Shape bs dst c -> orphan_stab bs = true -> exists k s, In (k, s) c /\ s_dev s = None /\ s_stab s <> None.
 Proof.
@@ -1886,22 +1874,11 @@ Lemma c09_slot_without_dev_minor bs dst c k s :
 Proof. intros Sh Hin F E. exact (c09_shape_major_has_dev _ _ _ _ _ Sh Hin E F). Qed.
 
 Lemma c09_finalize_orphan bs dst c :
-  Shape bs (Some dst) c -> In dst bs -> orphan_stab bs = true -> ~ w1_corner bs dst ->
-  finalize c dst = Err DevBranchDoesNotExist.
+  Shape bs (Some dst) c -> orphan_stab bs = true -> finalize c dst = Err DevBranchDoesNotExist.
 Proof.
-  intros Sh Idst O NW. pose proof (c09_shape_nodup _ _ _ Sh) as NDk. unfold finalize.
-  assert (NA : forall k s, In (k, s) c -> s_dev s = None -> s_stab s <> None -> s_hf s = None).
-  { intros k s Hin Fd Fs. destruct (s_hf s) as [[hb r]|] eqn:Fh; [|reflexivity]. exfalso. apply NW.
-    destruct (sh_hf _ _ _ Sh _ _ _ _ Hin Fh) as (_ & Kk & Cc & Kp). destruct hb as [| |x y z]; try discriminate Cc.
-    apply c09_kept_hotfix in Kp. destruct (s_stab s) as [sb|] eqn:F; [|contradiction].
-    destruct (sh_stab _ _ _ Sh _ _ _ Hin F) as (I & Kk' & Cc'). destruct sb as [| sx sy w |]; try discriminate Cc'.
-    cbn in Kk, Kk'. subst k. injection Kk' as -> ->. exists x, y, z, w. repeat split; [exact Kp | exact I|].
-    intro Id. destruct (sh_complete _ _ _ Sh _ Id eq_refl) as (s' & Hs' & Hh). unfold key_of in Hs'. cbn in Hs'.
-    rewrite (c09_unique_slot _ _ _ _ NDk Hs' Hin) in Hh. unfold holds in Hh. cbn in Hh. destruct Hh as [a Hh]. congruence. }
-  rewrite c09_loop_err; [reflexivity | | exact NA |].
-  - destruct (c09_orphan_slot _ _ _ Sh O) as (k & s & Hin & Fd & Fs). exists k, s.
-    split; [exact Hin|]. split; [exact Fd|]. apply (NA k s); assumption.
-  - intros k s Hin Fd _. eapply c09_slot_without_dev_minor; eassumption.
+  intros Sh O. unfold finalize. rewrite c09_loop_err; [reflexivity | |].
+  - exact (c09_orphan_slot _ _ _ Sh O).
+  - intros k s Hin Fd. eapply c09_slot_without_dev_minor; eassumption.
 Qed.
 
 (* --- version arithmetic *)
@@ -1926,17 +1903,15 @@ Lemma c09_default_values :
 Proof. repeat split. Qed.
 
 (* the fix version the code derives for a development branch that is a target and whose stabilization
-   branch (if any) is not *)
+   branch (if any) is not: the next unreleased patch, one more when the stabilization holds exactly that one *)
 Lemma c09_slot_version bs ts dst c k s :
   Shape bs (Some dst) c -> Attrs ts (keys c) c -> NoDup bs -> In (k, s) c ->
   s_dev s <> None -> s_hf s = None ->
   (forall k', In k' (keys c) <-> In k' (dev_lines bs)) ->
-  released_stab bs ts dst = false ->
-  (forall x y z, s_stab s = Some (Stab x y z) -> 0 <= z <= next_after 0 (released_patches ts x y)) ->
   (forall x y z, dst = Stab x y z -> k <> (x, Some y)) ->
   slot_versions false k (mkSlot (mark_dev s) None None) = Ok (target_version bs ts dst (dev_of_line k)).
 Proof.
-  intros Sh At ND Hin Fd Fh KS R Gap NotStab.
+  intros Sh At ND Hin Fd Fh KS NotStab.
   destruct (s_dev s) as [[db a]|] eqn:F; [|contradiction]. clear Fd.
   destruct (c09_shape_dev_slot _ _ _ _ _ _ _ Sh Hin F) as [-> Idb].
   destruct (At _ _ Hin) as [A1 _]. rewrite (A1 _ _ F) in F. clear A1.
@@ -1950,17 +1925,11 @@ Proof.
       apply andb_true_iff in E as [E1 E2]. apply Z.eqb_eq in E1, E2. subst. apply (NotStab x y z'); reflexivity. }
     rewrite TV. unfold next_patch.
     destruct (c09_stab_micros_slot _ _ _ _ _ _ Sh ND Hin) as [SM _]. rewrite SM. unfold stab_b.
-    unfold micro_final, rel_patches. cbn [fst snd]. rewrite c09_next_after_max_list, Dm. cbn [Z.sub].
+    unfold micro_final, rel_patches. cbn [fst snd]. rewrite c09_next_after_max_list, Dm.
     change (0 - 1) with (-1).
-    destruct (s_stab s) as [sb|] eqn:Fs; cbn [map existsb da_has_stab da_micro orb].
-    + destruct (sh_stab _ _ _ Sh _ _ _ Hin Fs) as (Isb & Kk & Cc).
-      destruct sb as [| sx sy z |]; try discriminate Cc. cbn in Kk. injection Kk as -> ->.
-      specialize (Gap x y z eq_refl). rewrite c09_next_after_max_list in Gap. change (0 - 1) with (-1) in Gap.
-      pose proof (c09_released_stab_false _ _ _ _ _ _ R Isb) as NotDep.
-      assert (Lt : max_list (-1) (released_patches ts x y) < z) by (apply c09_max_list_lt; [lia | exact NotDep]).
-      cbn [micro_of]. assert (E : (max_list (-1) (released_patches ts x y) + 1 =? z) = true) by (apply Z.eqb_eq; lia).
-      rewrite E. cbn [orb]. rewrite <- Z.add_assoc. reflexivity.
-    + reflexivity.
+    destruct (s_stab s) as [sb|] eqn:Fs; cbn [map existsb da_has_stab da_micro da_stab_micro orb andb].
+    + rewrite (Z.eqb_sym (micro_of sb)). rewrite orb_false_r. reflexivity.
+    + rewrite Dh. reflexivity.
   - (* development/x *)
     assert (Fs : s_stab s = None).
     { destruct (s_stab s) as [sb|] eqn:Fs; [|reflexivity]. exfalso.
@@ -2100,12 +2069,12 @@ Qed.
 
 Lemma c09_finalize_nonhf bs ts dst c :
   Shape bs (Some dst) c -> Attrs ts (keys c) c -> NoDup bs -> In dst bs -> is_hotfix dst = false ->
-  orphan_stab bs = false -> released_stab bs ts dst = false -> gap_free bs ts dst ->
+  orphan_stab bs = false ->
   observe (finalize c dst) =
   Ok (mkSpec (targets bs dst) (ignored bs dst) (flat_map (target_version bs ts dst) (targets bs dst))
              (merge_paths bs dst)).
 Proof.
-  intros Sh At ND Idst Hh O R Gap.
+  intros Sh At ND Idst Hh O.
   pose proof (c09_shape_nodup _ _ _ Sh) as NDk.
   assert (Hf : forall k s, In (k, s) c -> s_hf s = None) by (intros; eapply c09_nonhf_no_hf; eassumption).
   assert (G : forall k s, In (k, s) c -> good_slot s).
@@ -2159,11 +2128,8 @@ Proof.
   assert (SV : forall k s, In (k, s) l2 ->
      slot_versions false k (mkSlot (mark_dev s) None None) = Ok (target_version bs ts dst (dev_of_line k))).
   { intros k s Hin. destruct (Inl2 k s Hin) as (Hc & Nk & Lk). destruct (G k s Hc) as [Gd Gh].
-    apply (c09_slot_version bs ts dst c k s Sh At ND Hc Gd Gh KS R).
-    - intros x y z Fs. destruct (sh_stab _ _ _ Sh _ _ _ Hc Fs) as (Is & Kk & _). cbn in Kk. subst k.
-      apply Gap; [exact Is | | exact Hh | apply c09_line_le_iff; left; exact Lk].
-      intros <-. apply Nk. reflexivity.
-    - intros x y z -> E. apply Nk. rewrite E. reflexivity. }
+    apply (c09_slot_version bs ts dst c k s Sh At ND Hc Gd Gh KS).
+    intros x y z -> E. apply Nk. rewrite E. reflexivity. }
   unfold finalize. rewrite c09_dst_hf_flag, Hh, Paths, Ec.
   assert (Disj : forall k, In k (keys l1) -> ~ In k (k0 :: keys l2)).
   { intros k H1 [<-|H2].
@@ -2199,10 +2165,7 @@ Proof.
     cbn [fst snd f_ignored f_dst f_rem bind negb andb].
     rewrite (c09_versions_kept bs ts (Dev x0 y0) ((k0, s0) :: l2)).
     2:{ intros k s [E|Hin]; [injection E as <- <-|apply SV; exact Hin].
-        apply (c09_slot_version bs ts (Dev x0 y0) c k0 s0 Sh At ND Hs0); try assumption; [congruence| |discriminate].
-        intros x y z Fs. destruct (sh_stab _ _ _ Sh _ _ _ Hs0 Fs) as (Is & Kk & _).
-        apply Gap; [exact Is | discriminate | reflexivity|]. cbn in Kk. fold k0. rewrite <- Kk.
-        unfold line_le. rewrite c09_line_lt_irrefl. reflexivity. }
+        apply (c09_slot_version bs ts (Dev x0 y0) c k0 s0 Sh At ND Hs0); try assumption; [congruence | discriminate]. }
     cbn [bind observe o_dst o_ignored o_versions o_paths]. f_equal.
     rewrite c09_branch_eqb_refl in TS. cbn [app] in TS.
     assert (Edst : flat_map (fun e => dev_b (snd e)) ((k0, s0) :: l2) = targets bs (Dev x0 y0)).
@@ -2355,12 +2318,9 @@ Definition c09_agrees (order bs : list branch) (tags : list string) (dst : branc
 Definition C09_full : Prop :=
   forall order bs tags dst, Permutation order bs -> NoDup bs -> In dst bs -> c09_agrees order bs tags dst.
 
-Theorem c09_partial_proof order bs tags dst :
-  Permutation order bs -> NoDup bs -> In dst bs ->
-  ~ w1_corner bs dst -> gap_free bs (release_tags tags) dst ->
-  c09_agrees order bs tags dst.
+Theorem c09_full_proof : C09_full.
 Proof.
-  intros P ND Idst NW Gap. unfold c09_agrees, spec.
+  intros order bs tags dst P ND Idst. unfold c09_agrees, spec.
   destruct (c09_pipeline order bs tags dst P ND) as [[T ->]|(T & c0 & Sh & Fr & ->)]; rewrite T; [reflexivity|].
   rewrite (c09_dep_spec _ _ _ _ Sh Idst).
   destruct (released_stab bs (release_tags tags) dst) eqn:R; [reflexivity|].
@@ -2369,39 +2329,34 @@ Proof.
   assert (At2 : Attrs ts (keys c2) c2).
   { unfold c2. rewrite c09_keys_map_slots. apply c09_attrs_final. exact Fr. }
   destruct (orphan_stab bs) eqn:O.
-  - rewrite (c09_finalize_orphan _ _ _ Sh2 Idst O NW). reflexivity.
+  - rewrite (c09_finalize_orphan _ _ _ Sh2 O). reflexivity.
   - destruct (is_hotfix dst) eqn:Hh.
     + apply c09_finalize_hf; assumption.
     + apply c09_finalize_nonhf; assumption.
 Qed.
 
-(* W2: development/4.0 + stabilization/4.0.1, no tag, destination development/4.0:
-   the code expects fix version 4.0.1 - the version held by the untargeted stabilization branch -
-   where the statement gives 4.0.0 *)
-Example c09_witness_gap :
+(* the two inputs on which the code left the statement before the repairs f5b7e55 / 08d216c
+   (kept as regression cases, also in corpus/C09/00_regressions.json):
+   development/4.0 + stabilization/4.0.1, no tag, destination development/4.0: fix version 4.0.0
+   (was 4.0.1, the version held by the untargeted stabilization branch) *)
+Example c09_regression_gap :
   observe (build [Dev 4 (Some 0); Stab 4 0 1] [] (Dev 4 (Some 0))) =
-    Ok (mkSpec [Dev 4 (Some 0)] ["stabilization/4.0.1"] [[4; 0; 1]]
-               [[Dev 4 (Some 0)]; [Stab 4 0 1; Dev 4 (Some 0)]]) /\
-  spec [Dev 4 (Some 0); Stab 4 0 1] [] (Dev 4 (Some 0)) =
     Ok (mkSpec [Dev 4 (Some 0)] ["stabilization/4.0.1"] [[4; 0; 0]]
+               [[Dev 4 (Some 0)]; [Stab 4 0 1; Dev 4 (Some 0)]]) /\
+  observe (build [Dev 4 (Some 0); Stab 4 0 3] ["4.0.0"] (Dev 4 (Some 0))) =
+    Ok (mkSpec [Dev 4 (Some 0)] ["stabilization/4.0.3"] [[4; 0; 1]]
+               [[Dev 4 (Some 0)]; [Stab 4 0 3; Dev 4 (Some 0)]]) /\
+  observe (build [Dev 4 (Some 0); Stab 4 0 1] ["4.0.0"] (Dev 4 (Some 0))) =
+    Ok (mkSpec [Dev 4 (Some 0)] ["stabilization/4.0.1"] [[4; 0; 2]]
                [[Dev 4 (Some 0)]; [Stab 4 0 1; Dev 4 (Some 0)]]).
-Proof. split; vm_compute; reflexivity. Qed.
+Proof. repeat split; vm_compute; reflexivity. Qed.
 
-(* W1: stabilization/4.0.1 + hotfix/4.0.0 without development/4.0, destination hotfix/4.0.0:
-   AttributeError ('NoneType' object has no attribute 'has_stabilization') instead of a rejection *)
-Example c09_witness_attr :
-  observe (build [Stab 4 0 1; Hotfix 4 0 0] [] (Hotfix 4 0 0)) = Err AttributeError /\
+(* stabilization/4.0.1 + hotfix/4.0.0 without development/4.0, destination hotfix/4.0.0: rejected with
+   DevBranchDoesNotExist (was AttributeError on None.has_stabilization) *)
+Example c09_regression_attr :
+  observe (build [Stab 4 0 1; Hotfix 4 0 0] [] (Hotfix 4 0 0)) = Err DevBranchDoesNotExist /\
   spec [Stab 4 0 1; Hotfix 4 0 0] [] (Hotfix 4 0 0) = Err DevBranchDoesNotExist.
 Proof. split; vm_compute; reflexivity. Qed.
-
-Theorem c09_refuted_proof : ~ C09_full.
-Proof.
-  intro H.
-  assert (A : c09_agrees [Dev 4 (Some 0); Stab 4 0 1] [Dev 4 (Some 0); Stab 4 0 1] [] (Dev 4 (Some 0))).
-  { apply H; [reflexivity | repeat constructor; cbn; intuition discriminate | left; reflexivity]. }
-  unfold c09_agrees in A. destruct c09_witness_gap as [E1 E2]. cbn [release_tags flat_map] in A.
-  rewrite E1, E2 in A. discriminate A.
-Qed.
 
 (* the order in which build iterates its set of branch names is irrelevant - with no side condition *)
 Theorem c09_order_indep_proof o1 o2 tags dst :
@@ -2432,11 +2387,11 @@ Qed.
 
 (* the explicit error constructors of the totalised model that no input of the quantifier reaches *)
 Theorem c09_unreachable_errors_proof order bs tags dst :
-  Permutation order bs -> NoDup bs -> In dst bs -> ~ w1_corner bs dst -> gap_free bs (release_tags tags) dst ->
+  Permutation order bs -> NoDup bs -> In dst bs ->
   forall e, build order tags dst = Err e ->
   e = UnsupportedMultipleStabBranches \/ e = DeprecatedStabilizationBranch \/ e = DevBranchDoesNotExist.
 Proof.
-  intros P ND Idst NW Gap e E. pose proof (c09_partial_proof order bs tags dst P ND Idst NW Gap) as H.
+  intros P ND Idst e E. pose proof (c09_full_proof order bs tags dst P ND Idst) as H.
   unfold c09_agrees in H. rewrite E in H. cbn [observe] in H. unfold spec in H.
   destruct (two_stabs bs); [injection H as ->; auto|].
   destruct (released_stab bs (release_tags tags) dst); [injection H as ->; auto|].
@@ -2467,12 +2422,11 @@ Example c09_qt_first_stab :
   end.
 Proof. vm_compute. repeat split; reflexivity. Qed.
 
-(* the hypotheses of C09_partial hold of that cascade, in a discovery order that is not the sorted one *)
-Example c09_partial_nonvacuous :
+(* the hypotheses of C09_full hold of that cascade, in a discovery order that is not the sorted one *)
+Example c09_full_nonvacuous :
   let bs := qt_first_stab_branches in
   let order := [Dev 10 (Some 0); Stab 5 1 4; Stab 4 3 18; Dev 5 (Some 1); Dev 4 (Some 3)] in
-  Permutation order bs /\ NoDup bs /\ In (Stab 4 3 18) bs /\ ~ w1_corner bs (Stab 4 3 18) /\
-  gap_free bs (release_tags qt_first_stab_tags) (Stab 4 3 18) /\
+  Permutation order bs /\ NoDup bs /\ In (Stab 4 3 18) bs /\
   c09_agrees order bs qt_first_stab_tags (Stab 4 3 18).
 Proof.
   cbv zeta.
@@ -2483,13 +2437,8 @@ Proof.
     - repeat constructor; cbn; intuition discriminate.
     - intro b. cbn. intuition. }
   assert (ND : NoDup qt_first_stab_branches) by (repeat constructor; cbn; intuition discriminate).
-  assert (NW : ~ w1_corner qt_first_stab_branches (Stab 4 3 18)) by (intros (x & y & z & w & E & _); discriminate E).
-  assert (GF : gap_free qt_first_stab_branches (release_tags qt_first_stab_tags) (Stab 4 3 18)).
-  { intros x y z I N _ _. cbn in I. destruct I as [E|[E|[E|[E|[E|[]]]]]]; try discriminate E.
-    - congruence.
-    - injection E as <- <- <-. vm_compute. split; discriminate. }
-  split; [exact P|]. split; [exact ND|]. split; [left; reflexivity|]. split; [exact NW|]. split; [exact GF|].
-  apply c09_partial_proof; try assumption. left; reflexivity.
+  split; [exact P|]. split; [exact ND|]. split; [left; reflexivity|].
+  apply c09_full_proof; try assumption. left; reflexivity.
 Qed.
 
 (* test_major_development_branch: development/x branches, v-prefixed tags *)
@@ -2547,14 +2496,11 @@ Proof. repeat split. Qed.
 Example c09_error_classes_nonvacuous :
   let bs := [Stab 4 3 18; Dev 5 (Some 1)] in
   let tags := ["4.3.17"; "5.1.3"] in
-  NoDup bs /\ In (Dev 5 (Some 1)) bs /\ ~ w1_corner bs (Dev 5 (Some 1)) /\
-  gap_free bs (release_tags tags) (Dev 5 (Some 1)) /\
+  NoDup bs /\ In (Dev 5 (Some 1)) bs /\
   build [Dev 5 (Some 1); Stab 4 3 18] tags (Dev 5 (Some 1)) = Err DevBranchDoesNotExist.
 Proof.
   cbv zeta. split; [repeat constructor; cbn; intuition discriminate|]. split; [right; left; reflexivity|].
-  split; [intros (x & y & z & w & E & _); discriminate E|]. split; [|vm_compute; reflexivity].
-  intros x y z I _ _ L. cbn in I. destruct I as [E|[E|[]]]; [|discriminate E]. injection E as <- <- <-.
-  vm_compute in L. discriminate L.
+  vm_compute; reflexivity.
 Qed.
 
 (* hypotheses of C09_tag_order_error on a cascade built by add_branch: the deprecating tag first or last *)
